@@ -201,6 +201,19 @@ Proof.
     + reflexivity.
 Qed.
 
+Lemma params_at_nb_app_wild : forall p0 us k rest acc,
+  length us = length p0 ->
+  params_at_nb (p0 ++ [(k, PWild)]) (us ++ rest) acc = params_at_nb p0 us acc.
+Proof.
+  induction p0 as [|[k0 ps0] p0' IH]; intros us k rest acc HL.
+  - destruct us; [|discriminate]. cbn. destruct rest; reflexivity.
+  - destruct us as [|[ku u] us']; [discriminate|]. cbn in HL.
+    destruct ps0; cbn [app params_at_nb].
+    + apply IH. lia.
+    + apply IH. lia.
+    + reflexivity.
+Qed.
+
 Lemma kind_agree_visits : forall p q K X k1 ps1 k2 ps2,
   kind_agree p q = true ->
   step_at K p X = Some (k1, ps1) -> step_at K q X = Some (k2, ps2) -> k1 = k2.
@@ -485,38 +498,47 @@ Section TreeLemmas.
     | _, _ => []
     end.
 
-  Definition fw_ok (t : tree) (rcons : list part) (fw : wfound) : Prop :=
+  (* a remembered wildcard: its parent [P] was reached by the parts [rP]; at
+     least one further part [x] has been consumed since, and with the repaired
+     code ([ck]) the wildcard is of the kind of that first part *)
+  Definition fw_ok (ck : bool) (t : tree) (rcons : list part) (fw : wfound) : Prop :=
     match fw with
     | None => True
     | Some (W, wpath, wps) =>
-        exists P rP pre,
-          W = KWild :: P /\ follows t P rP /\ rcons = pre ++ rP /\
+        exists P rP pre x,
+          W = KWild :: P /\ follows t P rP /\ rcons = pre ++ x :: rP /\
           find_node W t <> None /\ wpath = path_of t W /\
-          wps = params_along t P rP
+          wps = params_along t P rP /\
+          (ck = true -> node_host t W = fst x)
     end.
 
-  Lemma fw_ok_cons : forall t rcons fw u,
-    fw_ok t rcons fw -> fw_ok t (u :: rcons) fw.
+  Lemma fw_ok_cons : forall ck t rcons fw u,
+    fw_ok ck t rcons fw -> fw_ok ck t (u :: rcons) fw.
   Proof.
-    intros t rcons [[[W wpath] wps]|] u H; [|exact I].
-    destruct H as (P & rP & pre & H1 & H2 & H3 & H4 & H5 & H6).
-    exists P, rP, (u :: pre). subst rcons. repeat split; auto.
+    intros ck t rcons [[[W wpath] wps]|] u H; [|exact I].
+    destruct H as (P & rP & pre & x & H1 & H2 & H3 & H4 & H5 & H6 & H7).
+    exists P, rP, (u :: pre), x. subst rcons. repeat split; auto.
   Qed.
 
-  Lemma note_wild_ok : forall t K rcons fw ps path,
-    follows t K rcons -> fw_ok t rcons fw ->
+  (* the wildcard child noted in front of the part (k, s) *)
+  Lemma note_wild_ok_cons : forall ck t K rcons fw ps path k s,
+    follows t K rcons -> fw_ok ck t rcons fw ->
     ps = params_along t K rcons -> path = path_of t K ->
-    fw_ok t rcons (note_wild t K path ps fw).
+    fw_ok ck t ((k, s) :: rcons) (note_wild ck t K path ps (Some k) fw).
   Proof.
-    intros t K rcons fw ps path HF HW Hps Hpath. unfold note_wild.
-    destruct (find_node (KWild :: K) t) as [wi|] eqn:F; [|exact HW].
-    exists K, rcons, []. repeat split; auto.
+    intros ck t K rcons fw ps path k s HF HW Hps Hpath. unfold note_wild.
+    destruct (find_node (KWild :: K) t) as [wi|] eqn:F; [|apply fw_ok_cons; exact HW].
+    destruct (negb ck || eqb (n_host wi) k) eqn:EC; [|apply fw_ok_cons; exact HW].
+    exists K, rcons, [], (k, s). repeat split; auto.
     - rewrite F. discriminate.
     - cbn [path_of]. unfold node_host. rewrite F. subst path. reflexivity.
+    - intros ->. cbn in EC. apply eqb_prop in EC. unfold node_host. rewrite F. exact EC.
   Qed.
 
-  (* the two ways a lookup succeeds *)
-  Definition walk_result (t : tree) (rall : list part) (r : lres V) : Prop :=
+  (* the two ways a lookup succeeds; in the second the wildcard [l_key r]
+     stands for the parts [pre] (reversed), the first of which — with the
+     repaired code — is of the wildcard's kind *)
+  Definition walk_result (ck : bool) (t : tree) (rall : list part) (r : lres V) : Prop :=
     l_val r = node_val t (l_key r) /\
     l_norm r = trim_url (path_of t (l_key r)) /\
     ((follows t (l_key r) rall /\ node_val t (l_key r) <> None /\
@@ -524,18 +546,23 @@ Section TreeLemmas.
      \/
      (exists P rP pre,
         l_key r = KWild :: P /\ follows t P rP /\ rall = pre ++ rP /\
-        find_node (l_key r) t <> None /\ l_params r = params_along t P rP)).
+        find_node (l_key r) t <> None /\ l_params r = params_along t P rP /\
+        (ck = true -> forall pre0 x, pre = pre0 ++ [x] ->
+                      node_host t (l_key r) = fst x))).
 
-  Lemma fw_hit : forall t rcons W wpath wps pre,
-    fw_ok t rcons (Some (W, wpath, wps)) ->
-    walk_result t (pre ++ rcons) (hit t W wps wpath).
+  Lemma fw_hit : forall ck t rcons W wpath wps pre,
+    fw_ok ck t rcons (Some (W, wpath, wps)) ->
+    walk_result ck t (pre ++ rcons) (hit t W wps wpath).
   Proof.
-    intros t rcons W wpath wps pre H.
-    destruct H as (P & rP & pre' & H1 & H2 & H3 & H4 & H5 & H6).
+    intros ck t rcons W wpath wps pre H.
+    destruct H as (P & rP & pre' & x & H1 & H2 & H3 & H4 & H5 & H6 & H7).
     unfold walk_result, hit; cbn. split; [reflexivity|].
     split; [rewrite H5; reflexivity|].
-    right. exists P, rP, (pre ++ pre'). subst rcons. rewrite app_assoc.
+    right. exists P, rP, (pre ++ pre' ++ [x]). subst rcons.
     repeat split; auto.
+    - rewrite <- !app_assoc. reflexivity.
+    - intros Hck pre0 x0 E. rewrite app_assoc in E. apply app_inj_tail in E.
+      destruct E as [_ <-]. apply H7. exact Hck.
   Qed.
 
   Lemma child_ok_some : forall (t : tree) X k ci,
@@ -547,71 +574,79 @@ Section TreeLemmas.
     inversion H; subst. apply eqb_prop in E. auto.
   Qed.
 
-  Lemma walk_spec : forall parts t K rcons fw ps path,
-    follows t K rcons -> fw_ok t rcons fw ->
+  Lemma walk_spec : forall parts ck t K rcons fw ps path,
+    follows t K rcons -> fw_ok ck t rcons fw ->
     ps = params_along t K rcons -> path = path_of t K ->
-    l_match (walk t K parts fw ps path) = true ->
-    walk_result t (rev parts ++ rcons) (walk t K parts fw ps path).
+    l_match (walk_v ck t K parts fw ps path) = true ->
+    walk_result ck t (rev parts ++ rcons) (walk_v ck t K parts fw ps path).
   Proof.
-    induction parts as [|[k s] rest IH]; intros t K rcons fw ps path HF HW Hps Hpath HM.
-    - cbn [walk rev app] in *.
+    induction parts as [|[k s] rest IH]; intros ck t K rcons fw ps path HF HW Hps Hpath HM.
+    - cbn [walk_v rev app] in *.
       destruct (node_val t K) as [v|] eqn:NV.
       + unfold walk_result, hit; cbn. split; [reflexivity|].
         split; [rewrite Hpath; reflexivity|].
         left. repeat split; auto. rewrite NV. discriminate.
-      + pose proof (note_wild_ok t K rcons fw ps path HF HW Hps Hpath) as HW'.
-        destruct (note_wild t K path ps fw) as [[[W wpath] wps]|].
-        * apply (fw_hit t rcons W wpath wps [] HW').
-        * discriminate.
-    - cbn [walk] in *.
-      pose proof (note_wild_ok t K rcons fw ps path HF HW Hps Hpath) as HW'.
-      set (fw' := note_wild t K path ps fw) in *.
+      + unfold note_wild in *.
+        destruct (find_node (KWild :: K) t) as [wi|] eqn:F.
+        * unfold walk_result, hit; cbn. split; [reflexivity|].
+          split; [cbn [path_of]; unfold node_host; rewrite F; subst path; reflexivity|].
+          right. exists K, rcons, []. repeat split; auto.
+          -- rewrite F. discriminate.
+          -- intros _ pre0 x E. destruct pre0; discriminate.
+        * destruct fw as [[[W wpath] wps]|]; [|discriminate].
+          apply (fw_hit ck t rcons W wpath wps [] HW).
+    - cbn [walk_v] in *.
+      pose proof (note_wild_ok_cons ck t K rcons fw ps path k s HF HW Hps Hpath) as HW'.
+      set (fw' := note_wild ck t K path ps (Some k) fw) in *.
       cbn [rev]. rewrite <- app_assoc. cbn [app].
       destruct (child_ok t (KConst s :: K) k) as [ci|] eqn:C1.
       + apply child_ok_some in C1. destruct C1 as [F1 H1].
         apply IH; auto.
         * cbn [follows]. split; [eauto|]. split; [left; reflexivity|exact HF].
-        * apply fw_ok_cons. exact HW'.
         * cbn [path_of]. unfold node_host. rewrite F1, H1. subst path.
           reflexivity.
       + destruct (child_ok t (KParam :: K) k) as [pi|] eqn:C2.
         * apply child_ok_some in C2. destruct C2 as [F2 H2].
           apply IH; auto.
           -- cbn [follows]. split; [eauto|]. split; [right; split; [reflexivity|exact C1]|exact HF].
-          -- apply fw_ok_cons. exact HW'.
           -- cbn [params_along]. unfold node_pname. rewrite F2. subst ps.
              reflexivity.
           -- cbn [path_of]. unfold node_host, node_pname. rewrite F2, H2.
              subst path. reflexivity.
         * destruct (is_brace s); [discriminate|].
           destruct fw' as [[[W wpath] wps]|]; [|discriminate].
-          apply (fw_hit t rcons W wpath wps (rev rest ++ [(k, s)])) in HW'.
-          rewrite <- app_assoc in HW'. exact HW'.
+          apply (fw_hit ck t ((k, s) :: rcons) W wpath wps (rev rest)) in HW'.
+          exact HW'.
   Qed.
 
-  Lemma walk_no_match : forall parts (t : tree) K fw ps path,
-    l_match (walk t K parts fw ps path) = false ->
-    walk t K parts fw ps path = no_match.
+  Lemma walk_no_match : forall parts ck (t : tree) K fw ps path,
+    l_match (walk_v ck t K parts fw ps path) = false ->
+    walk_v ck t K parts fw ps path = no_match.
   Proof.
-    induction parts as [|[k s] rest IH]; intros t K fw ps path HM; cbn [walk] in *.
+    induction parts as [|[k s] rest IH]; intros ck t K fw ps path HM; cbn [walk_v] in *.
     - destruct (node_val t K); [discriminate HM|].
-      destruct (note_wild t K path ps fw) as [[[W wpath] wps]|];
+      destruct (note_wild ck t K path ps None fw) as [[[W wpath] wps]|];
         [discriminate HM|reflexivity].
     - destruct (child_ok t (KConst s :: K) k); [apply IH; exact HM|].
       destruct (child_ok t (KParam :: K) k); [apply IH; exact HM|].
       destruct (is_brace s); [reflexivity|].
-      destruct (note_wild t K path ps fw) as [[[W wpath] wps]|];
+      destruct (note_wild ck t K path ps (Some k) fw) as [[[W wpath] wps]|];
         [discriminate HM|reflexivity].
+  Qed.
+
+  Lemma lookup_parts_v_spec : forall ck t parts,
+    l_match (lookup_parts_v ck t parts) = true ->
+    walk_result ck t (rev parts) (lookup_parts_v ck t parts).
+  Proof.
+    intros ck t parts HM. unfold lookup_parts_v in *.
+    pose proof (walk_spec parts ck t [] [] None [] [] I I eq_refl eq_refl HM) as H.
+    rewrite app_nil_r in H. exact H.
   Qed.
 
   Lemma lookup_parts_spec : forall t parts,
     l_match (lookup_parts t parts) = true ->
-    walk_result t (rev parts) (lookup_parts t parts).
-  Proof.
-    intros t parts HM. unfold lookup_parts in *.
-    pose proof (walk_spec parts t [] [] None [] [] I I eq_refl eq_refl HM) as H.
-    rewrite app_nil_r in H. exact H.
-  Qed.
+    walk_result true t (rev parts) (lookup_parts t parts).
+  Proof. intros t parts. apply lookup_parts_v_spec. Qed.
 
   (* ---------------------------------------------------------------- *)
   (* a pattern whose nodes carry the pattern's own kinds and names *)
@@ -777,14 +812,14 @@ Section TreeLemmas.
   Lemma key_from_nil : forall K, key_from K [] = K.
   Proof. reflexivity. Qed.
 
-  Lemma walk_exact : forall p t K us fw ps path,
+  Lemma walk_exact : forall p ck t K us fw ps path,
     agrees t K p -> wild_free p -> matches p us = true ->
     unshadowed_in t K p us -> node_val t (key_from K p) <> None ->
-    l_match (walk t K us fw ps path) = true /\
-    l_key (walk t K us fw ps path) = key_from K p.
+    l_match (walk_v ck t K us fw ps path) = true /\
+    l_key (walk_v ck t K us fw ps path) = key_from K p.
   Proof.
-    induction p as [|[k pstp] p' IH]; intros t K us fw ps path HA HW HM HU HV.
-    - destruct us; [|discriminate]. rewrite key_from_nil in *. cbn [walk].
+    induction p as [|[k pstp] p' IH]; intros ck t K us fw ps path HA HW HM HU HV.
+    - destruct us; [|discriminate]. rewrite key_from_nil in *. cbn [walk_v].
       destruct (node_val t K); [|contradiction]. split; reflexivity.
     - apply agrees_cons in HA. destruct HA as [(ni & F & Hh & _) HA'].
       apply Forall_cons_iff in HW. destruct HW as [Hnw HW']. cbn [snd] in Hnw.
@@ -795,13 +830,13 @@ Section TreeLemmas.
         apply andb_true_iff in HM. destruct HM as [HM0 HM1].
         apply eqb_prop in HM0. apply str_eqb_eq in HM1. subst ku u.
         cbn [unshadowed_in] in HU. destruct HU as [_ HU].
-        cbn [walk skey_of] in *. rewrite (child_ok_intro _ _ _ _ F Hh).
+        cbn [walk_v skey_of] in *. rewrite (child_ok_intro _ _ _ _ F Hh).
         apply IH; auto.
       + destruct us as [|[ku u] us']; [discriminate|]. cbn [matches] in HM.
         apply andb_true_iff in HM. destruct HM as [HM0 HM2].
         apply eqb_prop in HM0. subst ku.
         cbn [unshadowed_in] in HU. destruct HU as [HU0 HU].
-        cbn [walk skey_of] in *. rewrite HU0.
+        cbn [walk_v skey_of] in *. rewrite HU0.
         rewrite (child_ok_intro _ _ _ _ F Hh).
         apply IH; auto.
   Qed.
@@ -822,10 +857,10 @@ Section TreeLemmas.
   Definition tree_equiv (t t' : tree) : Prop :=
     forall X, info_equiv (find_node X t) (find_node X t').
 
-  Lemma note_wild_equiv : forall t t' K path ps fw,
-    tree_equiv t t' -> note_wild t K path ps fw = note_wild t' K path ps fw.
+  Lemma note_wild_equiv : forall ck t t' K path ps nxt fw,
+    tree_equiv t t' -> note_wild ck t K path ps nxt fw = note_wild ck t' K path ps nxt fw.
   Proof.
-    intros t t' K path ps fw HE. unfold note_wild.
+    intros ck t t' K path ps nxt fw HE. unfold note_wild.
     specialize (HE (KWild :: K)). unfold info_equiv in HE.
     destruct (find_node (KWild :: K) t) as [a|], (find_node (KWild :: K) t') as [b|];
       try contradiction; [|reflexivity].
@@ -860,19 +895,19 @@ Section TreeLemmas.
     l_match r = l_match r' /\ l_key r = l_key r' /\
     l_params r = l_params r' /\ l_norm r = l_norm r'.
 
-  Lemma walk_equiv : forall parts t t' K fw ps path,
+  Lemma walk_equiv : forall parts ck t t' K fw ps path,
     tree_equiv t t' ->
-    same_hit (walk t K parts fw ps path) (walk t' K parts fw ps path).
+    same_hit (walk_v ck t K parts fw ps path) (walk_v ck t' K parts fw ps path).
   Proof.
-    induction parts as [|[k s] rest IH]; intros t t' K fw ps path HE; cbn [walk].
+    induction parts as [|[k s] rest IH]; intros ck t t' K fw ps path HE; cbn [walk_v].
     - pose proof (node_val_equiv t t' K HE) as HV.
-      rewrite (note_wild_equiv t t' K path ps fw HE).
+      rewrite (note_wild_equiv ck t t' K path ps None fw HE).
       destruct (node_val t K) as [v|], (node_val t' K) as [v'|].
       + repeat split.
       + exfalso. destruct HV as [_ HV]. specialize (HV eq_refl). discriminate.
       + exfalso. destruct HV as [HV _]. specialize (HV eq_refl). discriminate.
-      + destruct (note_wild t' K path ps fw) as [[[W wpath] wps]|]; repeat split.
-    - rewrite (note_wild_equiv t t' K path ps fw HE).
+      + destruct (note_wild ck t' K path ps None fw) as [[[W wpath] wps]|]; repeat split.
+    - rewrite (note_wild_equiv ck t t' K path ps (Some k) fw HE).
       pose proof (child_ok_equiv t t' (KConst s :: K) k HE) as H1.
       pose proof (child_ok_equiv t t' (KParam :: K) k HE) as H2.
       destruct (child_ok t (KConst s :: K) k), (child_ok t' (KConst s :: K) k);
@@ -882,6 +917,420 @@ Section TreeLemmas.
           try contradiction.
         * rewrite H2. apply IH. exact HE.
         * destruct (is_brace s); [repeat split|].
-          destruct (note_wild t' K path ps fw) as [[[W wpath] wps]|]; repeat split.
+          destruct (note_wild ck t' K path ps (Some k) fw) as [[[W wpath] wps]|]; repeat split.
+  Qed.
+
+  (* ---------------------------------------------------------------- *)
+  (* kind-aware matching of what a successful lookup followed *)
+
+  Lemma agrees_app_r : forall p0 t K tl,
+    agrees t K (p0 ++ tl) -> agrees t (key_from K p0) tl.
+  Proof.
+    induction p0 as [|[k ps] p0' IH]; intros t K tl H.
+    - exact H.
+    - cbn [app] in H. apply agrees_cons in H. destruct H as [_ H].
+      rewrite key_from_cons. apply IH. exact H.
+  Qed.
+
+  Definition wild_tail_ok (tail : pattern) (rest : list part) : Prop :=
+    (tail = [] /\ rest = []) \/
+    (exists k, tail = [(k, PWild)] /\
+               (rest = [] \/ exists s rest', rest = (k, s) :: rest')).
+
+  Lemma follows_matches_kind : forall p t K rK us tail rest,
+    agrees t K p -> length us = length p ->
+    follows t (key_from K p) (rev us ++ rK) ->
+    wild_tail_ok tail rest ->
+    matches_kind (p ++ tail) (us ++ rest) = true.
+  Proof.
+    induction p as [|[k ps] p' IH]; intros t K rK us tail rest HA HL HF HT.
+    - destruct us; [|discriminate]. cbn [app].
+      destruct HT as [[-> ->]|(k & -> & [->|(s & rest' & ->)])]; cbn.
+      + reflexivity.
+      + reflexivity.
+      + apply eqb_reflx.
+    - destruct us as [|[ku u] us']; [discriminate|]. cbn in HL.
+      apply agrees_cons in HA. destruct HA as [(ni & F & Hh & Hn) HA'].
+      rewrite key_from_cons in HF. cbn [rev] in HF. rewrite <- app_assoc in HF.
+      cbn [app] in HF.
+      assert (HM : matches_kind (p' ++ tail) (us' ++ rest) = true).
+      { eapply IH; eauto. }
+      unfold key_from in HF.
+      apply follows_drop in HF;
+        [|rewrite !rev_length, map_length; lia].
+      cbn [follows] in HF. destruct HF as ((ni' & F' & Hh') & Hs & _).
+      rewrite F in F'. inversion F'; subst ni'.
+      assert (Ek : eqb k ku = true) by (apply eqb_true_iff; congruence).
+      destruct ps as [c|nm|]; cbn [skey_of] in Hs.
+      + destruct Hs as [Hs|[Hs _]]; [|discriminate]. inversion Hs; subst u.
+        cbn. rewrite Ek, str_eqb_refl. exact HM.
+      + cbn. rewrite Ek. exact HM.
+      + destruct Hs as [Hs|[Hs _]]; discriminate.
+  Qed.
+
+  (* the parameters a lookup binds, for all requests *)
+  Lemma params_along_at_nb : forall p t K rK us,
+    agrees t K p -> length us = length p -> wild_free p ->
+    params_along t (key_from K p) (rev us ++ rK) =
+    params_at_nb p us (params_along t K rK).
+  Proof.
+    induction p as [|[k ps] p' IH]; intros t K rK us HA HL HW.
+    - destruct us; [|discriminate]. reflexivity.
+    - destruct us as [|[ku u] us']; [discriminate|]. cbn in HL.
+      apply agrees_cons in HA. destruct HA as [(ni & F & Hh & Hn) HA'].
+      inversion HW as [|? ? Hps HW']; subst.
+      cbn [snd] in Hps.
+      rewrite key_from_cons. cbn [rev]. rewrite <- app_assoc. cbn [app].
+      assert (HL' : length us' = length p') by lia.
+      rewrite (IH t (skey_of ps :: K) (@cons part (ku, u) rK) us' HA' HL' HW').
+      destruct ps as [c|nm|]; cbn [skey_of params_along params_at_nb] in *.
+      + reflexivity.
+      + unfold node_pname. rewrite F, Hn. cbn [pname_of].
+        destruct (is_brace u); reflexivity.
+      + contradiction.
+  Qed.
+
+  (* ---------------------------------------------------------------- *)
+  (* the descent along a declared pattern that no literal sibling shadows,
+     and what is selected below the parent of a declared wildcard *)
+
+  Lemma walk_prefix : forall p ck t K us rest fw ps path,
+    agrees t K p -> wild_free p -> length us = length p -> matches p us = true ->
+    unshadowed_in t K p us ->
+    exists fw' ps' path',
+      walk_v ck t K (us ++ rest) fw ps path =
+      walk_v ck t (key_from K p) rest fw' ps' path'.
+  Proof.
+    induction p as [|[k pstp] p' IH]; intros ck t K us rest fw ps path HA HW HL HM HU.
+    - destruct us; [|discriminate]. rewrite key_from_nil. cbn [app]. eauto.
+    - destruct us as [|[ku u] us']; [discriminate|]. cbn in HL.
+      apply agrees_cons in HA. destruct HA as [(ni & F & Hh & _) HA'].
+      apply Forall_cons_iff in HW. destruct HW as [Hnw HW']. cbn [snd] in Hnw.
+      rewrite key_from_cons.
+      destruct pstp as [c|nm|]; [| |contradiction].
+      + cbn [matches] in HM.
+        apply andb_true_iff in HM. destruct HM as [HM HM2].
+        apply andb_true_iff in HM. destruct HM as [HM0 HM1].
+        apply eqb_prop in HM0. apply str_eqb_eq in HM1. subst ku u.
+        cbn [unshadowed_in] in HU. destruct HU as [_ HU].
+        cbn [app walk_v skey_of] in *. rewrite (child_ok_intro _ _ _ _ F Hh).
+        apply IH; auto.
+      + cbn [matches] in HM.
+        apply andb_true_iff in HM. destruct HM as [HM0 HM2].
+        apply eqb_prop in HM0. subst ku.
+        cbn [unshadowed_in] in HU. destruct HU as [HU0 HU].
+        cbn [app walk_v skey_of] in *. rewrite HU0.
+        rewrite (child_ok_intro _ _ _ _ F Hh).
+        apply IH; auto.
+  Qed.
+
+  Definition fw_below (N : key) (fw : wfound) : Prop :=
+    match fw with
+    | Some (W, _, _) => exists A, W = A ++ N
+    | None => False
+    end.
+
+  Definition no_brace (us : list part) : Prop :=
+    Forall (fun u => is_brace (snd u) = false) us.
+
+  Lemma note_wild_below : forall ck (t : tree) B N path ps nxt fw,
+    fw_below N fw -> fw_below N (note_wild ck t (B ++ N) path ps nxt fw).
+  Proof.
+    intros ck t B N path ps nxt fw H. unfold note_wild.
+    destruct (find_node (KWild :: B ++ N) t); [|exact H].
+    destruct (match nxt with Some k => _ | None => true end); [|exact H].
+    exists (KWild :: B). reflexivity.
+  Qed.
+
+  (* once a wildcard at or below [N] is remembered, whatever is selected is
+     at or below [N]; and something is selected unless the descent stops at
+     a request part spelled "{..}" *)
+  Lemma walk_below : forall rest ck (t : tree) B N fw ps path,
+    fw_below N fw ->
+    (l_match (walk_v ck t (B ++ N) rest fw ps path) = true ->
+     exists A, l_key (walk_v ck t (B ++ N) rest fw ps path) = A ++ N) /\
+    (no_brace rest -> l_match (walk_v ck t (B ++ N) rest fw ps path) = true).
+  Proof.
+    induction rest as [|[k s] rest IH]; intros ck t B N fw ps path HB.
+    - cbn [walk_v].
+      destruct (node_val t (B ++ N)).
+      + split; [intros _; exists B; reflexivity|reflexivity].
+      + pose proof (note_wild_below ck t B N path ps None fw HB) as HB'.
+        destruct (note_wild ck t (B ++ N) path ps None fw) as [[[W wpath] wps]|];
+          [|contradiction].
+        destruct HB' as [A ->]. split; [intros _; exists A; reflexivity|reflexivity].
+    - cbn [walk_v].
+      pose proof (note_wild_below ck t B N path ps (Some k) fw HB) as HB'.
+      set (fw' := note_wild ck t (B ++ N) path ps (Some k) fw) in *.
+      destruct (child_ok t (KConst s :: B ++ N) k).
+      + destruct (IH ck t (KConst s :: B) N fw' ps (path ++ delim k ++ s) HB') as [H1 H2].
+        split; [exact H1|]. intro HN. apply H2. inversion HN; assumption.
+      + destruct (child_ok t (KParam :: B ++ N) k) as [pi|].
+        * destruct (IH ck t (KParam :: B) N fw'
+                      (if is_brace s then ps else (n_pname pi, s) :: ps)
+                      (path ++ delim k ++ [c_lbrace] ++ n_pname pi ++ [c_rbrace]) HB')
+            as [H1 H2].
+          split; [exact H1|]. intro HN. apply H2. inversion HN; assumption.
+        * destruct (is_brace s) eqn:EB.
+          -- split; [discriminate|]. intro HN. inversion HN as [|? ? Hs _]; subst.
+             cbn [snd] in Hs. congruence.
+          -- destruct fw' as [[[W wpath] wps]|]; [|contradiction].
+             destruct HB' as [A ->].
+             split; [intros _; exists A; reflexivity|reflexivity].
+  Qed.
+
+  (* at the parent [N] of a wildcard node of kind [kw], with a rest the
+     wildcard may stand for *)
+  Lemma walk_from_wild_parent : forall rest ck (t : tree) N fw ps path kw,
+    (exists wi, find_node (KWild :: N) t = Some wi /\ n_host wi = kw) ->
+    (rest = [] \/ exists s rest', rest = (kw, s) :: rest') ->
+    (l_match (walk_v ck t N rest fw ps path) = true ->
+     exists A, l_key (walk_v ck t N rest fw ps path) = A ++ N) /\
+    (no_brace rest -> l_match (walk_v ck t N rest fw ps path) = true).
+  Proof.
+    intros rest ck t N fw ps path kw (wi & F & Hk) [->|(s & rest' & ->)].
+    - cbn [walk_v]. destruct (node_val t N).
+      + split; [intros _; exists []; reflexivity|reflexivity].
+      + unfold note_wild. rewrite F.
+        split; [intros _; exists [KWild]; reflexivity|reflexivity].
+    - cbn [walk_v].
+      assert (HN : note_wild ck t N path ps (Some kw) fw =
+                   Some (KWild :: N, path ++ delim (n_host wi) ++ star, ps)).
+      { unfold note_wild. rewrite F, Hk, eqb_reflx, orb_true_r. reflexivity. }
+      rewrite HN.
+      set (fw' := Some (KWild :: N, path ++ delim (n_host wi) ++ star, ps)).
+      assert (HB : fw_below N fw') by (exists [KWild]; reflexivity).
+      destruct (child_ok t (KConst s :: N) kw).
+      + destruct (walk_below rest' ck t [KConst s] N fw' ps (path ++ delim kw ++ s) HB)
+          as [H1 H2].
+        split; [exact H1|]. intro HNB. apply H2. inversion HNB; assumption.
+      + destruct (child_ok t (KParam :: N) kw) as [pi|].
+        * destruct (walk_below rest' ck t [KParam] N fw'
+                      (if is_brace s then ps else (n_pname pi, s) :: ps)
+                      (path ++ delim kw ++ [c_lbrace] ++ n_pname pi ++ [c_rbrace]) HB)
+            as [H1 H2].
+          split; [exact H1|]. intro HNB. apply H2. inversion HNB; assumption.
+        * destruct (is_brace s) eqn:EB.
+          -- split; [discriminate|]. intro HNB. inversion HNB as [|? ? Hs _]; subst.
+             cbn [snd] in Hs. congruence.
+          -- split; [intros _; exists [KWild]; reflexivity|reflexivity].
+  Qed.
+
+  (* the path a lookup followed is not shadowed, and has no wildcard step *)
+  Lemma follows_unshadowed : forall p t K rK us,
+    length us = length p -> follows t (key_from K p) (rev us ++ rK) ->
+    unshadowed_in t K p us.
+  Proof.
+    induction p as [|[k ps] p' IH]; intros t K rK us HL HF; [exact I|].
+    destruct us as [|[ku u] us']; [exact I|]. cbn in HL.
+    rewrite key_from_cons in HF. cbn [rev] in HF. rewrite <- app_assoc in HF.
+    cbn [app] in HF. cbn [unshadowed_in]. split.
+    - unfold key_from in HF.
+      apply follows_drop in HF; [|rewrite !rev_length, map_length; lia].
+      cbn [follows] in HF. destruct HF as (_ & Hs & _).
+      destruct ps as [c|nm|]; try exact I.
+      cbn [skey_of] in Hs. destruct Hs as [Hs|[_ Hs]]; [discriminate|exact Hs].
+    - eapply IH; [|exact HF]. lia.
+  Qed.
+
+  Lemma unshadowed_in_app_wild : forall p0 t K us0 k rest,
+    length us0 = length p0 -> unshadowed_in t K p0 us0 ->
+    unshadowed_in t K (p0 ++ [(k, PWild)]) (us0 ++ rest).
+  Proof.
+    induction p0 as [|[k0 ps0] p0' IH]; intros t K us0 k rest HL HU.
+    - destruct us0; [|discriminate]. cbn [app unshadowed_in].
+      destruct rest as [|[ku u] rest']; [exact I|]. split; exact I.
+    - destruct us0 as [|[ku u] us0']; [discriminate|]. cbn in HL.
+      cbn [app unshadowed_in] in *. destruct HU as [H1 H2]. split; [exact H1|].
+      apply IH; [lia|exact H2].
+  Qed.
+
+  Lemma unshadowed_in_prefix : forall p0 t K us0 tl rest,
+    length us0 = length p0 -> unshadowed_in t K (p0 ++ tl) (us0 ++ rest) ->
+    unshadowed_in t K p0 us0.
+  Proof.
+    induction p0 as [|[k0 ps0] p0' IH]; intros t K us0 tl rest HL HU; [exact I|].
+    destruct us0 as [|[ku u] us0']; [discriminate|]. cbn in HL.
+    cbn [app unshadowed_in] in *. destruct HU as [H1 H2]. split; [exact H1|].
+    eapply IH; [|exact H2]. lia.
+  Qed.
+
+  Definition key_wild_free (X : key) : Prop := Forall (fun s => s <> KWild) X.
+
+  Lemma follows_key_wild_free : forall X t rus, follows t X rus -> key_wild_free X.
+  Proof.
+    induction X as [|s X' IH]; intros t [|[k u] rus'] H; cbn in H; try contradiction.
+    - constructor.
+    - destruct H as (_ & Hs & H). constructor.
+      + destruct Hs as [->|[-> _]]; discriminate.
+      + eapply IH; exact H.
+  Qed.
+
+  (* the key a successful lookup returns: a followed path, or the wildcard
+     child of one *)
+  Lemma walk_result_key_shape : forall ck t rall r,
+    walk_result ck t rall r ->
+    key_wild_free (l_key r) \/ exists P, l_key r = KWild :: P /\ key_wild_free P.
+  Proof.
+    intros ck t rall r (_ & _ & [(HF & _)|(P & rP & pre & HK & HF & _)]).
+    - left. eapply follows_key_wild_free; exact HF.
+    - right. exists P. split; [exact HK|]. eapply follows_key_wild_free; exact HF.
   Qed.
 End TreeLemmas.
+
+
+(* ------------------------------------------------------------------ *)
+(* the two specification matchers, the specificity order *)
+
+Lemma matches_kind_matches : forall p us,
+  matches_kind p us = true -> matches p us = true.
+Proof.
+  induction p as [|[k ps] p' IH]; intros us H; [exact H|].
+  destruct ps as [c|nm|]; cbn [matches_kind matches] in *.
+  - destruct us as [|[k' s'] us']; [discriminate|].
+    apply andb_true_iff in H. destruct H as [H1 H2]. rewrite H1. apply IH. exact H2.
+  - destruct us as [|[k' s'] us']; [discriminate|].
+    apply andb_true_iff in H. destruct H as [H1 H2]. rewrite H1. apply IH. exact H2.
+  - apply andb_true_iff in H. apply H.
+Qed.
+
+Lemma matches_kind_wild_free : forall p us,
+  wild_free p -> matches_kind p us = matches p us.
+Proof.
+  induction p as [|[k ps] p' IH]; intros us HW; [reflexivity|].
+  inversion HW as [|? ? Hps HW']; subst. cbn [snd] in Hps.
+  destruct ps as [c|nm|]; cbn [matches_kind matches]; [| |contradiction].
+  - destruct us as [|[k' s'] us']; [reflexivity|]. rewrite (IH _ HW'). reflexivity.
+  - destruct us as [|[k' s'] us']; [reflexivity|]. rewrite (IH _ HW'). reflexivity.
+Qed.
+
+(* a pattern that matches is wildcard-free and as long as the request, or a
+   wildcard-free prefix of the request followed by the wildcard, which
+   stands for nothing or for a rest starting with a part of its kind *)
+Lemma matches_kind_shape : forall p us,
+  matches_kind p us = true ->
+  (wild_free p /\ length us = length p) \/
+  (exists p0 k us0 rest,
+     p = p0 ++ [(k, PWild)] /\ wild_free p0 /\ us = us0 ++ rest /\
+     length us0 = length p0 /\ matches p0 us0 = true /\
+     (rest = [] \/ exists s rest', rest = (k, s) :: rest')).
+Proof.
+  induction p as [|[k ps] p' IH]; intros us H.
+  - destruct us; [|discriminate]. left. split; [constructor|reflexivity].
+  - destruct ps as [c|nm|]; cbn [matches_kind] in H.
+    + destruct us as [|[k' s'] us']; [discriminate|].
+      apply andb_true_iff in H. destruct H as [H1 H2].
+      destruct (IH _ H2) as [[HW HL]|(p0 & kw & us0 & rest & -> & HW & -> & HL & HM & HR)].
+      * left. split; [constructor; [discriminate|exact HW]|cbn; lia].
+      * right. exists ((k, PConst c) :: p0), kw, ((k', s') :: us0), rest.
+        repeat split; auto.
+        -- constructor; [discriminate|exact HW].
+        -- cbn. lia.
+        -- cbn [matches]. rewrite H1. exact HM.
+    + destruct us as [|[k' s'] us']; [discriminate|].
+      apply andb_true_iff in H. destruct H as [H1 H2].
+      destruct (IH _ H2) as [[HW HL]|(p0 & kw & us0 & rest & -> & HW & -> & HL & HM & HR)].
+      * left. split; [constructor; [discriminate|exact HW]|cbn; lia].
+      * right. exists ((k, PParam nm) :: p0), kw, ((k', s') :: us0), rest.
+        repeat split; auto.
+        -- constructor; [discriminate|exact HW].
+        -- cbn. lia.
+        -- cbn [matches]. rewrite H1. exact HM.
+    + apply andb_true_iff in H. destruct H as [H1 H2].
+      destruct p'; [|discriminate]. right.
+      exists [], k, [], us. repeat split; auto.
+      * constructor.
+      * destruct us as [|[k' s'] us']; [left; reflexivity|].
+        apply eqb_prop in H2. subst k'. right. eauto.
+Qed.
+
+Lemma params_at_nb_nobrace : forall p us acc,
+  Forall (fun u => is_brace (snd u) = false) us ->
+  params_at_nb p us acc = params_at p us acc.
+Proof.
+  induction p as [|[k ps] p' IH]; intros us acc HB; [reflexivity|].
+  destruct us as [|[ku u] us']; [destruct ps; reflexivity|].
+  inversion HB as [|? ? Hb HB']; subst. cbn [snd] in Hb.
+  destruct ps as [c|nm|]; cbn [params_at_nb params_at].
+  - apply IH. exact HB'.
+  - rewrite Hb. apply IH. exact HB'.
+  - reflexivity.
+Qed.
+
+Lemma skey_eqb_refl : forall a, skey_eqb a a = true.
+Proof. intro a. apply skey_eqb_eq. reflexivity. Qed.
+
+Lemma spec_leb_refl : forall p, spec_leb p p = true.
+Proof.
+  induction p as [|x p IH]; [reflexivity|]. cbn. rewrite skey_eqb_refl. exact IH.
+Qed.
+
+Lemma spec_leb_app : forall l a b, spec_leb (l ++ a) (l ++ b) = spec_leb a b.
+Proof.
+  induction l as [|x l IH]; intros a b; [reflexivity|].
+  cbn. rewrite skey_eqb_refl. apply IH.
+Qed.
+
+(* the order is antisymmetric: at most one maximum *)
+Lemma spec_leb_antisym : forall p q,
+  spec_leb p q = true -> spec_leb q p = true -> p = q.
+Proof.
+  induction p as [|x p IH]; intros [|y q] H1 H2; cbn in *; try discriminate.
+  - reflexivity.
+  - destruct (skey_eqb x y) eqn:E.
+    + apply skey_eqb_eq in E. subst y. rewrite skey_eqb_refl in H2.
+      f_equal. apply IH; assumption.
+    + assert (E' : skey_eqb y x = false).
+      { destruct (skey_eqb y x) eqn:E'; [|reflexivity].
+        apply skey_eqb_eq in E'. subst y. rewrite skey_eqb_refl in E. discriminate. }
+      rewrite E' in H2. apply Nat.ltb_lt in H1. apply Nat.ltb_lt in H2. lia.
+Qed.
+
+Lemma steps_of_key : forall p, rev (key_of p) = steps_of p.
+Proof.
+  intro p. unfold key_of, key_from, steps_of. rewrite app_nil_r, rev_involutive.
+  reflexivity.
+Qed.
+
+(* whatever is selected at or below the parent [N] of a wildcard node is at
+   least as specific as that wildcard *)
+Lemma spec_leb_below : forall (X N A : key),
+  X = A ++ N ->
+  (key_wild_free X \/ exists P, X = KWild :: P /\ key_wild_free P) ->
+  spec_leb (rev (KWild :: N)) (rev X) = true.
+Proof.
+  intros X N A -> HS. cbn [rev]. rewrite rev_app_distr, spec_leb_app.
+  destruct (rev A) as [|y tl] eqn:EA; [reflexivity|].
+  cbn [spec_leb].
+  destruct (skey_eqb KWild y) eqn:E.
+  - apply skey_eqb_eq in E. subst y.
+    assert (HA : A = rev tl ++ [KWild]).
+    { rewrite <- (rev_involutive A), EA. reflexivity. }
+    subst A. rewrite <- app_assoc in HS. cbn [app] in HS.
+    assert (Hin : forall Y, key_wild_free (rev tl ++ KWild :: Y) -> False).
+    { intros Y HF. unfold key_wild_free in HF. rewrite Forall_forall in HF.
+      apply (HF KWild); [apply in_or_app; right; left; reflexivity|reflexivity]. }
+    destruct HS as [HF|(P & HP & HF)].
+    + exfalso. eapply Hin; exact HF.
+    + destruct tl as [|z tl']; [reflexivity|].
+      exfalso. cbn [rev] in HP. rewrite <- app_assoc in HP. cbn [app] in HP.
+      destruct (rev tl') as [|w rt].
+      * cbn [app] in HP. inversion HP; subst.
+        unfold key_wild_free in HF. rewrite Forall_forall in HF.
+        apply (HF KWild); [left; reflexivity|reflexivity].
+      * cbn [app] in HP. inversion HP; subst.
+        unfold key_wild_free in HF. rewrite Forall_forall in HF.
+        apply (HF KWild); [|reflexivity].
+        apply in_or_app. right. right. left. reflexivity.
+  - destruct y; cbn in *; try reflexivity. discriminate.
+Qed.
+
+(* in a split URL the host labels precede the path segments *)
+Lemma split_url_host_first : forall u,
+  exists hs ps, split_url u = map (fun s => (true, s)) hs ++ map (fun s => (false, s)) ps.
+Proof.
+  intro u. unfold split_url.
+  destruct (split_on c_slash (trim_url u)) as [|host path].
+  - exists [], []. reflexivity.
+  - exists (split_on c_dot host), path. reflexivity.
+Qed.
